@@ -206,6 +206,7 @@ class C08(Prop):
                    'TLS channel credentials are not exercised (no certificates in the sandbox)']
     quick_examples = 900
     thorough_examples = 5000
+    fuzz_runs = 8000
     floors = {'collector': 0.25, 'synthetic': 0.25, 'auth': 0.15, 'sequence_attribute': 0.05, 'surrogate_text': 0.03}
 
     def strategy(self, tier):
